@@ -29,6 +29,18 @@ def streams(tier, seed):
             regs = [tuple(sorted(rng.sample(pool, 2))) for _ in range(rng.randint(1, 4))]
             out.append([a, op_integrate(a, dim, regs)])
             out.append([a, op_integrate(a, dim, [regs[0]], bare=True)])
+        # enumerated non-uniform ascending axes: every increment pattern over {1,2,3} (quick: length 4; thorough: 3-5)
+        if _ == 0:
+            import itertools as _it
+            for L in ((4,) if tier == "quick" else (3, 4, 5)):
+                for inc in _it.product((1, 2, 3), repeat=L - 1):
+                    xs = [Fraction(0)]
+                    for q in inc:
+                        xs.append(xs[-1] + Fraction(q, 2))
+                    a = new_op(rng, 0, dims=["f2", "x"], shape=[L, 2], cplx=False)
+                    a["coords"][0] = [str(v) for v in xs]
+                    out.append([a, op_integrate(a, "f2")])
+                    out.append([a, op_simple("cumulative_integrate", a, dim="f2")])
         # enhancement: Power first, every reference index
         for nd in (1, 2, 3):
             dims = ["Power"] + rng.sample([d for d in DIM_POOL if d != "Power"], nd - 1)
